@@ -36,6 +36,9 @@ def corpus(ctx):
         ("jdf:pingpong.jdf", "pingpong", 1, [("PING", 0, 1, 0, 1, 0), ("PONG", 1, 0, 0, 1, 0)], [r5 if t else r4], lambda g: g[0] + 1, lambda g: 1, [(2,)]),
         ("repo:tests/dsl/ptg/startup.jdf", "startup", 2, [("STARTUP", 0, 1, 1, 0, 0)], [range(0, 3)] * 3, lambda g: max(g),
          lambda g: g[0] * g[1] * g[2], [(2, 2, 1)]),
+        # derived local between two ranges, used in the inner range's bound; every instance is a startup task
+        ("jdf:between.jdf", "between", 2, [("T", 0, 1, 1, 0, 0), ("U", 1, 1, 1, 0, 0)], [r4], lambda g: max(g[0] + 1, 3),
+         lambda g: (g[0] + 1) * (g[0] + 2) // 2, [(3,), (2,)]),
         ("repo:examples/Ex02_Chain.jdf", "Ex02_Chain", 1, [("Task", 0, 1, 0, 1, 0)], [r5 if t else r4], lambda g: g[0] + 1, lambda g: 1, [(2,)]),
     ]
 
@@ -46,7 +49,9 @@ TRIM_PARSEC_C = [
     (PC, r"^/\*\n \* Mark the task as having all it's dependencies satisfied\.", "#if 0 /* vp */\n/*\n * Mark the task as having all it's dependencies satisfied."),
     (PC, r"\Z", "\n#endif /* vp */\n"),
 ]
-REFBOX = {"chain": 9, "grid": 13, "tree": 10, "derived": 11, "pingpong": 9, "startup": 6, "Ex02_Chain": 9}   # REF_PHI-REF_PLO+1
+REFBOX = {"chain": 9, "grid": 13, "tree": 10, "derived": 11, "pingpong": 9, "startup": 6, "Ex02_Chain": 9, "between": 8}   # REF_PHI-REF_PLO+1
+# class-specific bound on the number of startup tasks (default: the JDF-wide bound of the corpus table)
+NSTART_CLS = {("between", "U"): lambda g: sum(i % 3 + 1 for i in range(g[0] + 1))}
 KF_NEG = "C01-descending-range"
 NEG_STEP = {("grid", "G")}       # startup-capable classes with a negative-step parameter range
 
@@ -63,6 +68,7 @@ NONEMPTY = {
     ("chain", "C"): lambda g: g[0] >= 1, ("grid", "G"): lambda g: g[0] >= 0 and g[1] >= 0, ("grid", "H"): lambda g: g[0] >= 0 and g[1] >= 0,
     ("tree", "T"): lambda g: g[0] >= 0, ("tree", "S"): lambda g: True, ("derived", "P"): lambda g: g[0] >= -1, ("derived", "Q"): lambda g: g[0] >= -1,
     ("pingpong", "PING"): lambda g: g[0] >= 0, ("pingpong", "PONG"): lambda g: g[0] >= 0,
+    ("between", "T"): lambda g: g[0] >= 0, ("between", "U"): lambda g: g[0] >= 0,
     ("startup", "STARTUP"): lambda g: min(g) >= 1, ("Ex02_Chain", "Task"): lambda g: g[0] >= 0,
 }
 
@@ -102,13 +108,16 @@ def queries(ctx):
                         # (i = 0, -1, -2, ... all satisfy "i <= 0"): no bounded verdict is possible
                         continue
                     for (nr, me) in ((1, 0), (2, 1)):
-                        maxt = max(1, nstart(v))
+                        ns = NSTART_CLS.get((name, cls), nstart)(v)
+                        maxt = max(1, ns)
                         u = max(2, trip(v)) + 2
                         d = cd + vdefs([v]) + ["VP_NRANKS=%d" % nr, "MYRANK=%d" % me, "MAXT=%d" % maxt]
-                        if nstart(v) < 2 or nr > 1:
+                        if ns < 2 or nr > 1:
                             d.append("NO_MULTI")
                         if nr > 1:
                             d.append("REMOTE_VIEW")
+                        elif ns >= 6:
+                            d.append("AGAIN_POS")     # enough startup tasks: witnesses that re-entry happens after 2, 4 and 5 tasks
                         qs.append(Q("startup_%s_%s_%s_r%d.%d" % (name, cls, "_".join(str(x).replace("-", "m") for x in v), nr, me),
                                     ["o2_startup.c"], defs=d, unwind=u, unwindset=["one.0:%d" % (maxt + 3), "main.0:3", "main.1:3"],
                                     tiers=("quick", "thorough") if quick else ("thorough",),
@@ -173,6 +182,11 @@ def mutants(ctx):
                '"    restore_context = 1;\\n"\n            "    goto restore_context_0;\\n"',
                '"    restore_context = 0;\\n"\n            "    this_task->locals.reserved[0].value = 2;\\n"',
                queries=["startup_derived_P_0_r1.0", "startup_startup_STARTUP_2_2_1_r1.0"]),
+        # O2: on re-entry only the range iterators are reloaded, derived locals restart at 0 ("recomputed inside the loops")
+        Mutant("startup_reentry_reloads_only_range_iterators", J2C,
+               'coutput("  int %s = this_task->locals.%s.value;  /* retrieve value saved during the last iteration */\\n", vl->name, vl->name);',
+               'if( vl->expr->op == JDF_RANGE ) coutput("  int %s = this_task->locals.%s.value;\\n", vl->name, vl->name); else coutput("  int %s = 0;\\n", vl->name);',
+               queries=["startup_between_T_3_r1.0", "startup_between_U_3_r1.0"]),
         # O2: startup creates tasks that belong to other ranks
         Mutant("startup_ignores_placement", J2C,
                'coutput("%s  if( !%s_pred(%s) ) continue;\\n",\n            indent(nesting), f->fname, UTIL_DUMP_LIST_FIELD(sa1,',
